@@ -1,0 +1,26 @@
+//go:build verif
+
+package ast
+
+// Contracts for the deductive verifier under /verif (comment-only; build tag verif).
+
+//@ pred lineTable(lines []int) = len(lines) > 0 && lines[0] == 0 && forall p in 0..len(lines) :: forall q in p+1..len(lines) :: lines[p] < lines[q]
+
+// LineColumn: line-1 is the index of the last line start <= offset; col counts bytes from it.
+//@ func Node.LineColumn
+//@   option nilable-receiver
+//@   requires n != nil ==> n.tree != nil && lineTable(n.tree.lines) && n.offset >= 0
+//@   ensures n == nil ==> result0 == 1 && result1 == 1
+//@   ensures n != nil ==> 1 <= result0 && result0 <= len(n.tree.lines) && n.tree.lines[result0-1] <= n.offset
+//@   ensures n != nil && result0 < len(n.tree.lines) ==> n.offset < n.tree.lines[result0]
+//@   ensures n != nil ==> result1 == n.offset - n.tree.lines[result0-1] + 1 && result1 >= 1
+
+// lineOffsets: 0 followed by the offset after every newline, in order.
+//@ func lineOffsets
+//@   ensures lineTable(result)
+//@   ensures forall k in 1..len(result) :: 1 <= result[k] && result[k] <= len(str) && str[result[k]-1] == '\n'
+//@   ensures forall p in 0..len(str) :: str[p] == '\n' ==> exists k in 1..len(result) :: result[k] == p + 1
+//@   loop 1:
+//@     invariant 0 <= off && off <= len(str) && lineTable(lines) && lines[len(lines)-1] == off && fresh(lines)
+//@     invariant forall k in 1..len(lines) :: 1 <= lines[k] && lines[k] <= len(str) && str[lines[k]-1] == '\n'
+//@     invariant forall p in 0..off :: str[p] == '\n' ==> exists k in 1..len(lines) :: lines[k] == p + 1
